@@ -547,14 +547,15 @@ func Run(t *simkit.Tape, o *simkit.Outcome, full bool) {
 		}
 	}
 	if t.Bool(1, 3) {
-		s.Vars = append(s.Vars, [2]string{"s", []string{"a", "en", "x y", ""}[t.Draw(4)]})
+		s.Vars = append(s.Vars, [2]string{"s", []string{"a", "en", "x y", "", " x ", "  ", "\t", "en ", " a", "\u00a0b\u00a0"}[t.Pick(3, 3, 3, 2, 2, 1, 1, 1, 1, 1)]})
 		if len(s.NS) > 0 && t.Bool(1, 2) {
 			s.Vars = append(s.Vars, [2]string{"p:k", "v"})
 		}
 	}
 	if t.Bool(1, 6) {
 		if t.Bool(3, 4) {
-			s.Entities = append(s.Entities, [2]string{"ent", "EV"})
+			// values with leading / trailing white space must reach the decoder untouched
+			s.Entities = append(s.Entities, [2]string{"ent", []string{"EV", " ", " pad ", "\t", "\u00a0", "é "}[t.Pick(4, 1, 1, 1, 1, 1)]})
 		}
 		// some XML files reference the entity (with -e it expands; without, the file is unparsable)
 		for i := range s.Tree {
@@ -583,6 +584,11 @@ func Run(t *simkit.Tape, o *simkit.Outcome, full bool) {
 			env.StrVars = append(env.StrVars, kv[0])
 		}
 		s.Expr, _ = model.GenExprAny(t, env)
+	}
+	if len(s.Vars) > 0 && t.Bool(1, 3) {
+		// expressions whose output shows the variable's exact value
+		s.Expr = []string{"concat('[', $s, ']')", "string-length($s)", "$s", "//*[. = $s]", "//*[contains(., $s)]", "translate($s, ' ', '_')", "//@*[. = $s]"}[t.Draw(7)]
+		o.Probe("expression-shows-variable-value")
 	}
 	var stdin []byte
 	if t.Bool(1, 6) {
